@@ -35,6 +35,8 @@ inductive Status where
   | badDuplicateReferenceNotAllowed
   | badNodeIdUnknown
   | badReferenceNotAllowed
+  | badNothingToDo
+  | badTooManyOperations
 deriving Repr, DecidableEq
 
 def Status.name : Status → String
@@ -56,6 +58,8 @@ def Status.name : Status → String
   | .badDuplicateReferenceNotAllowed => "BadDuplicateReferenceNotAllowed"
   | .badNodeIdUnknown => "BadNodeIdUnknown"
   | .badReferenceNotAllowed => "BadReferenceNotAllowed"
+  | .badNothingToDo => "BadNothingToDo"
+  | .badTooManyOperations => "BadTooManyOperations"
 
 def clsObject : Nat := 1
 def clsVariable : Nat := 2
@@ -310,5 +314,52 @@ def deleteReference (s : NS) (it : DeleteReferencesItem) : NS × Status :=
   match delRefCheck s it with
   | .error st => (s, st)
   | .ok t => ({ s with sp := { nodes := s.sp.nodes, refs := unlinkRefs s it t } }, .good)
+
+/-! ### The four services: request-level tests around the per-item functions -/
+
+/-- outcome of one service call -/
+inductive ReqOut (α : Type) where
+  /-- service fault: no item was looked at -/
+  | fault (st : Status)
+  /-- one result per item, in order -/
+  | results (s : NS) (rs : List α)
+  | panic
+deriving Repr
+
+/-- the shape shared by `add_nodes`, `add_references`, `delete_nodes`, `delete_references`: a missing or
+empty list is BadNothingToDo, more items than `max_nodes_per_node_management` is
+BadTooManyOperations, otherwise the items are processed one after the other on the same address
+space -/
+def serveItems {ι α : Type} (limit : Nat) (step : NS → ι → Option (NS × α)) (s : NS)
+    (items : Option (List ι)) : ReqOut α :=
+  match items with
+  | none => .fault .badNothingToDo
+  | some l =>
+    if l.isEmpty then .fault .badNothingToDo
+    else if l.length ≤ limit then
+      let rec go : NS → List ι → List α → ReqOut α
+        | s, [], acc => .results s acc.reverse
+        | s, it :: rest, acc =>
+          match step s it with
+          | some (s', r) => go s' rest (r :: acc)
+          | none => .panic
+      go s l []
+    else .fault .badTooManyOperations
+
+def addNodesReq (hier : Nat → Bool) (limit : Nat) :=
+  serveItems limit (fun s (it : AddNodesItem) => match addNode hier s it with
+    | .ok s' st id => some (s', (st, id))
+    | .panic => none)
+
+def addReferencesReq (limit : Nat) :=
+  serveItems limit (fun s (it : AddReferencesItem) => match addReference s it with
+    | .ok s' st _ => some (s', st)
+    | .panic => none)
+
+def deleteNodesReq (agg : Nat → Bool) (limit : Nat) :=
+  serveItems limit (fun s (it : Nat × Bool) => deleteNode agg s it.1 it.2)
+
+def deleteReferencesReq (limit : Nat) :=
+  serveItems limit (fun s (it : DeleteReferencesItem) => some (deleteReference s it))
 
 end OpcuaVerif.C34
